@@ -137,7 +137,8 @@ impl Plan for C12Plan {
             return AnyCase::New(gen_vanity(&mut rng, &spec));
         }
         let mut rng = Rng::new(run_seed(self.seed, 0xC12, idx as u64));
-        match rng.weighted(&[6, 2, 2]) {
+        match rng.weighted(&[5, 2, 2, 2]) {
+            3 => AnyCase::Lib(super::libcase::gen_lib_case(&mut rng)),
             0 => {
                 // threaded search: failures at seeded positions under seeded schedules
                 let mut spec = random_vanity_spec(&mut rng, true);
@@ -169,9 +170,9 @@ impl Plan for C12Plan {
         format!(
             "Case i is a pure function of (VERIF_SEED, i). Enumerated, seed-independent, real binary (E1): [0,{C12_A}) `new -n L` for every L in 0..=40 x 19 \
              entropy responses (8 degenerate patterns, 8 fixed random values, EIO, ENOSYS, EIO after scribbling the buffer); [{C12_A},{}) single-searcher vanity \
-             (-j 0 and -j 1) for the 5 lengths x plant position 0..=6 x failure at each request of the search or none. Seeded: 60% threaded vanity search in E2 \
+             (-j 0 and -j 1) for the 5 lengths x plant position 0..=6 x failure at each request of the search or none. Seeded: 45% threaded vanity search in E2 \
              (2..64 workers, plant 0..12, one failure at a seeded request, seeded scheduler policy random/sticky/PCT-like), 20% plain generation in E2 cross-validated \
-             on E1, 20% single-searcher vanity on E1 with a stdout short-write/EINTR plan. Every successful run feeds the printed phrase back to the real \
+             on E1, 20% single-searcher vanity on E1 with a stdout short-write/EINTR plan, 15% library scenario (2..4 tasks x 1..3 concurrent Mnemonic::random calls under the seeded scheduler, each result must carry exactly the bytes delivered to that task's own request). Every successful run feeds the printed phrase back to the real \
              `address --mnemonic`. distinct_nontrivial = distinct (argument classes, failure positions, plan, schedule hash) among runs where an injected entropy \
              failure/degenerate pattern/short write fired or more than one task was actually scheduled.",
             C12_A + C12_B
@@ -194,6 +195,8 @@ impl Plan for C12Plan {
             "entropy_failure_made_the_command_fail".into(),
             "winner_is_not_first_worker".into(),
             "reparse_by_real_binary".into(),
+            "lib_generations_interleaved".into(),
+            "lib_failure_delivered".into(),
         ]
     }
 }
@@ -213,7 +216,20 @@ const DIGITS22: [&str; 22] = [
 const C18_THREADS: [usize; 4] = [0, 1, 2, 16];
 const C18_A: usize = 22 * 4;
 
-const NEGATIVE: [(&str, bool); 14] = [
+const NEGATIVE: [(&str, bool); 26] = [
+    ("0x+a", false),
+    ("0x+1", false),
+    ("0x+ab", false),
+    ("0xa+", false),
+    ("0x-a", false),
+    ("0x_a", false),
+    ("0xa_", false),
+    ("0x\ta", false),
+    ("0xa ", false),
+    ("0x0x1", false),
+    ("0x.1", false),
+    ("0x1e1", true), // valid hex, both selectors
+
     // (prefix, also give both selectors)
     ("0xg", false),
     ("0x1g", false),
@@ -293,6 +309,32 @@ impl Plan for C18Plan {
             return AnyCase::New(c);
         }
         let mut rng = Rng::new(run_seed(self.seed, 0xC18, idx as u64));
+        if rng.chance(1, 8) {
+            // a prefix that is not hexadecimal must be refused: one foreign character put
+            // into an otherwise valid prefix at a seeded position
+            let digits: String = (0..rng.range(0, 5)).map(|_| *rng.pick(&['0', '1', '7', '9', 'a', 'c', 'f', 'A', 'E'])).collect();
+            let junk = ["+", "-", "_", " ", "\t", "x", "X", "g", "G", "h", "o", "O", "l", ".", ",", ":", "#", "$", "é", "１", "а", "\u{200b}", "0x", "%41"];
+            let j = *rng.pick(&junk);
+            let at = rng.usize_below(digits.len() + 1);
+            let mut d = digits.clone();
+            d.insert_str(at, j);
+            let workers = [0usize, 1, 2, 3][rng.usize_below(4)];
+            let e = rng.bytes(16);
+            let mut c = NewCase {
+                prefix: Some(format!("0x{d}")),
+                threads: Some(workers.to_string()),
+                entropy: vec![EntResp::ok(&e)],
+                tail: Some(EntResp::ok(&e)),
+                reparse: false,
+                ..NewCase::default()
+            };
+            if rng.coin() {
+                c.e2 = Some(e2_params(&mut rng, workers, 1));
+                c.cross_e1 = workers <= 1;
+            }
+            debug_assert_eq!(classify_prefix(&c.prefix), PrefixClass::NonHex);
+            return AnyCase::New(c);
+        }
         let mut spec = random_vanity_spec(&mut rng, false);
         // C18 is about the result of a search that can succeed: failures are C12's subject,
         // keep them rare here
